@@ -730,7 +730,31 @@ func (cfg *Config) wordFields(wps []syntax.WordPart) ([][]fieldPart, error) {
 			curField = nil
 		}
 	}
+	// Like bash, in a word with a "*" or "@" list expansion, IFS whitespace
+	// at the very start is part of the delimiter which may follow it.
+	hasList := false
+	for _, wp := range wps {
+		quoted := false
+		if dq, ok := wp.(*syntax.DblQuoted); ok && len(dq.Parts) == 1 {
+			wp, quoted = dq.Parts[0], true
+		}
+		if pe, ok := wp.(*syntax.ParamExp); ok {
+			if _, star, ok := cfg.listElems(pe); ok && !(quoted && star) {
+				hasList = true
+			}
+		}
+	}
+	atStart := true
 	splitAdd := func(val string) {
+		if val == "" {
+			return
+		}
+		if atStart && hasList && len(fields) == 0 && len(curField) == 0 {
+			if r, _ := utf8.DecodeRuneInString(val); cfg.ifsWhitespace(r) {
+				wsDelim = true
+			}
+		}
+		atStart = false
 		fieldStart := -1
 		for i, r := range val {
 			if cfg.ifsRune(r) {
@@ -828,12 +852,6 @@ func (cfg *Config) wordFields(wps []syntax.WordPart) ([][]fieldPart, error) {
 				// Unquoted "*" or "@" expansions produce one field per
 				// element; joining and re-splitting them would lose
 				// fields when IFS is empty.
-				if len(elems) > 0 && len(curField) == 0 {
-					// Like bash, leading IFS whitespace in the list
-					// is part of the delimiter which may follow it.
-					r, _ := utf8.DecodeRuneInString(elems[0])
-					wsDelim = cfg.ifsWhitespace(r)
-				}
 				for j, elem := range elems {
 					if j > 0 {
 						// The elements are split as if joined by
